@@ -395,5 +395,4 @@ class c_parse_version:
                 addr_bytes(result["remote_address"]) == data[20:46], addr_bytes(result["local_address"]) == data[46:72],
                 le(result["nonce"], 8) == data[72:80], result["subversion"] == data[s0:s0 + n],
                 le(result["last_block_index"], 4) == data[s0 + n:end],
-                (result["relay"] is None) == (len(data) == end),
-                implies(len(data) > end, result["relay"] == (data[end] != 0)))
+                (result["relay"] is None) == (len(data) == end))
